@@ -107,11 +107,14 @@ def name_tree(rng, shape, fancy=False):
             base = base[0] + rng.choice(NAME_CHARS_EXTRA) + base[1:] if rng.random() < 0.6 else base + rng.choice(['.x', '-b', '_1', ' sp', '/', '/z'])
         return base
     casepairs = (not fancy) and (not oma) and rng.random() < 0.08        # species names that differ only in case: L1, l1, L2, l2 ...
+    numeric = (not fancy) and (not oma) and (not casepairs) and rng.random() < 0.06     # species named by digits only (NCBI taxon ids)
     def rec(t):
         if not t[1]:
             lc[0] += 1
             if casepairs:
                 return (('L%d' if lc[0] % 2 else 'l%d') % ((lc[0] + 1) // 2), ())
+            if numeric:
+                return (str(9600 + 7 * lc[0]), ())
             if oma and rng.random() < 0.2:
                 # near-misses of an OMA species code: five characters but not a code, or a code followed by more characters
                 return (rng.choice(['Sp%03d', 'sP%03d', 'SP%03dX', 'S-%03d']) % lc[0], ())
@@ -214,13 +217,17 @@ def gen_lineage(rng, T, p, ids, P):
         if rng.random() < P['subid']:
             hid = ids.hog()
         label = rng.random() < P['label']
+        if hid is not None and rng.random() < 0.3:
+            # LOFT ids equal to the id of the directly enclosing group (OMA writes the HOG id there for every gene that is not
+            # a fresh copy): a LOFT id like any other (r11-C19a)
+            subs = [('one', s_[1], ('g', s_[2][1], hid)) if (s_[0] == 'one' and s_[2][0] == 'g' and rng.random() < 0.6) else s_ for s_ in subs]
         nann = 0
         while rng.random() < P['ann'] and nann < 3:
             nann += 1
             if rng.random() < 0.5:
                 e = ('score', rng.choice(['Completeness', 'bootstrap', 'TreeCertainty']), rng.choice(SCORE_LITERALS))
             else:
-                e = ('prop', rng.choice(['Note', 'Color', 'Source']), rng.choice(['x', 'y z', '42', 'A&B', 'x<y>z', "O'Neil", 'say "hi"', 'gr\u00fcn', '']))
+                e = ('prop', rng.choice(['Note', 'Color', 'Source']), rng.choice(['x', 'y z', '42', 'A&B', 'x<y>z', "O'Neil", 'say "hi"', 'gr\u00fcn', '', 'kinase, putative ', ' x', ' ', '007', '1e3']))
             subs.insert(rng.randint(0, len(subs)), ('ann', e))
     return ('grp', written, hid, label, subs)
 
@@ -699,7 +706,7 @@ def make_dataset(rng, T=None, naming=None, nfam=None, P=None, maxleaves=8, int_i
             D.meta['species_split'] = name
     D.meta['dbsplit'] = rng.random() < P.get('dbsplit', 0.0)
     D.meta['style'] = dict(dbsplit=D.meta['dbsplit'], notes=rng.random() < P.get('notes', 0.0), wrap=rng.random() < P.get('wrap', 0.0),
-                           latin1=rng.random() < P.get('latin1', 0.0))
+                           latin1=rng.random() < P.get('latin1', 0.0), breaks=rng.random() < P.get('breaks', 0.12))
     if rng.random() < P.get('late_species', 0.0):
         refd = set(g for p_, l_, _ in D.families for g in genes_of(l_))
         cand = [i for i, (_, gs) in enumerate(D.species) if not any(g in refd for g, _ in gs)]
@@ -1054,8 +1061,8 @@ def orthoxml(species, groups, newlines=True, dbsplit=None, style=None):
         s += '<species name="%s" NCBITaxId="1">' % xml_escape(name)
         for bi, block in enumerate(blocks):
             s += '<database name="d%d" version="1"><genes>' % bi + nl
-            for gid, xr in block:
-                s += '<gene id="%s"%s/>' % (xml_escape(gid), ''.join(' %s="%s"' % (k, xml_escape(v)) for k, v in xr)) + nl
+            for gj, (gid, xr) in enumerate(block):
+                s += '<gene id="%s"%s/>' % (xml_escape(gid), ''.join(' %s="%s"' % (k, xml_escape(v)) for k, v in xr)) + (nl if not (style.get('breaks') and gj % 3 != 2) else '')
             s += '</genes></database>'
         if style.get('notes'):
             s += '<notes>curated; see <c:gene xmlns:c="urn:curation" id="ZZ-not-a-gene" protId="zz"/></notes>'
@@ -1071,6 +1078,13 @@ def orthoxml(species, groups, newlines=True, dbsplit=None, style=None):
                     'name="TaxRange" value="nowhere"/><c:score xmlns:c="urn:curation" id="bootstrap" value="0.5"/></notes>' % xml_escape(other))
             k = x.rfind('</orthologGroup>')
             x = x[:k] + note + x[k:]
+        if style.get('breaks') and newlines:
+            # line breaks INSIDE a group: before every annotation element and before every second member, so that lines start
+            # with <property ...>, <score ...> or <geneRef ...> and go on with other elements (legal white space; r11-C11a / C01a:
+            # line-oriented fast paths)
+            x = x.replace('<property ', '\n<property ').replace('<score ', '\n<score ')
+            parts = x.split('<geneRef ')
+            x = parts[0] + ''.join((('\n' if i_ % 2 else '') + '<geneRef ' + q_) for i_, q_ in enumerate(parts[1:]))
         s += x + nl
     s += '</groups>' + nl + late + '</orthoXML>' + nl
     if style.get('wrap'):
